@@ -124,6 +124,31 @@ impl C11 {
             let kf = if fee.amount.is_zero() && fee.denom != reward_denom { Some("KF-C11-a") } else { None };
             rep.failed("create_exact_payment_accepted", kf, format!("farm creation with exactly reward + fee attached ({fee_class}) refused: {}", out.short()), witness(ctx));
         }
+        // less than reward + fee must never be enough: only the fee, only the reward, one unit short
+        for (label, short) in [("fee only", true), ("one unit short", false)] {
+            w.restore(&base);
+            let mut f2 = exact.clone();
+            if short {
+                // keep nothing of the reward
+                if fee.denom == reward_denom {
+                    f2 = if fee.amount.is_zero() { vec![] } else { vec![fee.clone()] };
+                } else {
+                    f2.retain(|c| c.denom != reward_denom);
+                }
+            } else if let Some(c) = f2.iter_mut().find(|c| c.denom == reward_denom) {
+                c.amount -= cosmwasm_std::Uint128::new(1);
+            }
+            f2.retain(|c| !c.amount.is_zero());
+            let mut p2 = params.clone();
+            p2.farm_identifier = Some(format!("probe{}u{}", self.n, short as u8));
+            let out = w.apply(&farm_op(&creator, FarmAction::Create { params: p2 }, f2.clone()));
+            let ctx = json!({"fee": fee.to_string(), "reward": reward.to_string(), "attached": f2.iter().map(|c| c.to_string()).collect::<Vec<_>>(), "variant": label, "class": fee_class, "result": out.short()});
+            if out.is_ok() {
+                rep.failed("create_takes_exactly", None, format!("farm creation accepted an under-payment ({label}, {fee_class}): the farm is recorded with a budget that was not paid in"), witness(ctx));
+            } else {
+                rep.held("create_takes_exactly", hash_of(&(fee_class, label)), || ctx.clone());
+            }
+        }
         // an additional unrelated coin must not be swallowed
         w.restore(&base);
         let mut extra = exact.clone();
